@@ -219,5 +219,5 @@ MANIFEST = {
             "expression trees, every straight-line program agrees — and sgn0 equals RFC 9380 §4.1 on every parity/zero pattern. "
             "__pow__ agrees for every exponent (both satisfy the loop invariant), inv() agrees on the quadratic extensions (both are the "
             "ring inverse on every path); inv on the degree-12 classes is not decided.",
-    "note": "Shares its obligations with C08 (each side is also compared with the quotient-ring specification).",
+    "note": "sgn0 tables are evaluated with int coefficients and with base-field objects as coefficients (the constructor keeps what it is given). Shares its obligations with C08 (each side is also compared with the quotient-ring specification).",
 }
